@@ -315,24 +315,8 @@ def size_of(c):
 
 
 def classify(c, code):
-    """map a specification violation to a recorded finding id (or None = new violation)"""
-    kinds = [s["k"] for s in c["chain"]]
-    if code == 1 and c["out"]["err"] == "err" and "parser" in kinds and any(not r["ok"] for r in c["tab"].get("parse") or []):
-        return "parser-error-fails-request"
-    dropping = ("label_filter", "comparison", "line_format")
-    if code == 4 and any(k in dropping for k in kinds):
-        return "error-entry-filtered-out"
-    if code == 2 and "parser" in kinds and any(not r["ok"] for r in c["tab"].get("parse") or []):
-        first_parser = kinds.index("parser")
-        if any(k in dropping for k in kinds[first_parser + 1:]):
-            return "error-entry-filtered-out"
-    if code == 2 and any(s["k"] == "lra" and s.get("fn") == "absent_over_time" for s in c["chain"]):
-        return "absent-first-bucket"
-    if code in (2, 3) and "label_format" in kinds:
-        # the stale fingerprint survives only when no later stage recomputes it for every entry
-        last = max(i for i, k in enumerate(kinds) if k == "label_format")
-        if not any(k in ("by_without", "parser") for k in kinds[last + 1:]):
-            return "label-format-stale-fingerprint"
+    """map a specification violation to a recorded finding id (or None = new violation).  No finding is open for C09: every
+    defect the oracle met was repaired in /repo (findings.d/C09.txt, `fixed:` lines), so nothing is classified away."""
     return None
 
 
